@@ -159,6 +159,7 @@ def make_service():
 
 
 _MADE = [0]
+_DGRAMS = [0]
 
 
 def check_datagram(svc, calls, msgs, multicast, addr, ctx, replay):
@@ -169,6 +170,12 @@ def check_datagram(svc, calls, msgs, multicast, addr, ctx, replay):
     debug = vloop.rotate_loglevel() if replay.get("debug") is None else vloop.set_loglevel(replay["debug"])
     replay["debug"] = debug
     ctx.count("datagrams_handled_with_debug_logging_on" if debug else "datagrams_handled_with_debug_logging_off")
+    _DGRAMS[0] += 1
+    if _DGRAMS[0] % 16 == 0:
+        # the application re-opened the service's socket and assigned the public attribute again (what create_unicast_endpoint
+        # does with it): replies leave through the transport in force
+        svc.transport = Tr()
+        ctx.count("datagrams_handled_after_the_transport_was_assigned_again")
     tr = svc.transport
     tr.sent.clear()
     calls.clear()
